@@ -510,10 +510,10 @@ fn run_lane(ctx: &Ctx, lr: &mut LaneResult) {
         search(ctx, lr, "frame-attacked", ctx.tier.pick(560, 5600), strategy(true), &check);
     }
     if lr.violations.is_empty() {
-        search_opts(ctx, lr, "frame-attacked-climbing", ctx.tier.pick(480, 4800), climbing_strategy(), &check, 12);
+        search_opts(ctx, lr, "frame-attacked-climbing", ctx.tier.pick(320, 4800), climbing_strategy(), &check, 12);
     }
     if lr.violations.is_empty() {
-        search_opts(ctx, lr, "frame-attacked-recursive", ctx.tier.pick(192, 1920), recursive_strategy(), &check, 12);
+        search_opts(ctx, lr, "frame-attacked-recursive", ctx.tier.pick(128, 1920), recursive_strategy(), &check, 12);
     }
 }
 
